@@ -98,7 +98,16 @@ func (d *DebugDialer) Dial(ctx context.Context, urlstr string) (conn net.Conn, b
 					conn,
 				)
 			}
-			br.Reset(r)
+			if rest := len(p[h:]); rest > br.Size() {
+				// The prefetched bytes do not fit into the dialer's read
+				// buffer. They all must be reported by br.Buffered(), because
+				// they are not in the connection anymore: use a buffer which
+				// is big enough.
+				ws.PutReader(br)
+				br = bufio.NewReaderSize(r, rest)
+			} else {
+				br.Reset(r)
+			}
 			// Must make br.Buffered() to be non-zero.
 			br.Peek(len(p[h:]))
 		}
